@@ -282,6 +282,21 @@ theorem webhooks_verdict :
   ⟨fun hl ops => restart_observe_hooks webhooksCtor hl ops,
    fun hl ops h => (restart_hooks_lost webhooksCtor hl ops h).1⟩
 
+/-- the constructor fact is selectable like the shapes: with the `webhooks`
+repair (known-findings.d/txn-fix-1) selected the constructor loads and restart
+is transparent for the webhook manager; without it every registered hook is lost -/
+theorem restart_observe_hooks_selected (fixed : List String) :
+    (fixed.contains "webhooks" = true → ∀ ops,
+      observeHooks (restartHooks (webhooksCtorOf fixed).loads (reachHooks ops)) = observeHooks (reachHooks ops)) ∧
+    (fixed.contains "webhooks" = false → ∀ ops h,
+      (observeHooks (restartHooks (webhooksCtorOf fixed).loads (reachHooks (ops ++ [.register h])))).1 = []) :=
+  ⟨fun hf ops => restart_observe_hooks (webhooksCtorOf fixed) (by simpa [webhooksCtorOf] using hf) ops,
+   fun hf ops h => (restart_hooks_lost (webhooksCtorOf fixed) (by simpa [webhooksCtorOf] using hf) ops h).1⟩
+
+/-- with the repair selected every constructor of the table rebuilds its state, and all stay read-only -/
+example : (ctorTable ["webhooks"]).all (·.loads) = true ∧ (ctorTable ["webhooks"]).all ctorReadOnly = true ∧
+    ((ctorTable []).filter (fun c => !c.loads)).map (·.name) = ["webhooks.NewManager"] := by decide
+
 /-- matching: hook 1 on `alerts`, hook 2 on "all", hook 3 on `wallet`; event `alerts/info` = [1,5] reaches 1 and 2 -/
 example : matching [⟨1, 0, [[1]]⟩, ⟨2, 0, [[]]⟩, ⟨3, 0, [[2]]⟩] [1, 5] = [1, 2] := by decide
 
